@@ -96,6 +96,10 @@ def main():
         results.append(r)
         print(json.dumps(r))
         sys.stdout.flush()
+    out = [a.split("=", 1)[1] for a in sys.argv[1:] if a.startswith("--matrix=")]
+    if out:
+        with open(out[0], "w") as f:
+            json.dump(results, f, indent=1)
     missed = [r["patch"] for r in results if not r.get("caught")]
     print("SUMMARY: %d patches, %d caught, missed: %s" % (len(results), len(results) - len(missed), missed))
     return 0
